@@ -25,6 +25,9 @@ def main():
         pid = pid or sid.split("-")[0]
         d = os.path.join(VERIF, "seeded", sid)
         rc, o = sh(["git", "apply", os.path.join(d, "patch.diff")], wt)
+        if rc != 0 and os.path.exists(os.path.join(d, "patch_rebased.diff")):
+            # the seeded site was rewritten by a later fix: the same slip re-made against the current source
+            rc, o = sh(["git", "apply", os.path.join(d, "patch_rebased.diff")], wt)
         if rc != 0:
             print(sid, "patch does not apply:", o[-300:])
             continue
